@@ -388,3 +388,67 @@ def callers_of(cx, fn):
 def call_args(cx, s):
     a = cx.prog.A(s.fn)
     return [a.expr_operand(o, s.at) for o in s.data["term"]["args"]]
+
+
+def defining_reads(a, local, depth=0):
+    """Statements at which the memory reads feeding a local's value happen (through copies, casts and
+    arithmetic): [(block, idx)]; None if the value has several definitions somewhere on the way."""
+    if depth > 8:
+        return None
+    ds = a.defs[local]
+    if len(ds) != 1:
+        return None
+    d = ds[0]
+    if d[2] == "call":
+        return [(d[0], "term")]
+    rv = d[3]
+    out = []
+    ops = []
+    if "use" in rv:
+        ops = [rv["use"]]
+    elif "cast" in rv:
+        ops = [rv["cast"]]
+    elif "bin" in rv:
+        ops = [rv["a"], rv["b"]]
+    elif "un" in rv:
+        ops = [rv["a"]]
+    elif "ref" in rv:
+        return [(d[0], d[1])]
+    else:
+        return None
+    for op in ops:
+        if "const" in op:
+            continue
+        pl = op.get("copy") or op.get("move")
+        if pl is None:
+            return None
+        if pl["p"]:
+            out.append((d[0], d[1]))
+        else:
+            r = defining_reads(a, pl["l"], depth + 1)
+            if r is None:
+                return None
+            out += r
+    return out
+
+
+def value_read_before(cx, site, arg_index, call_suffix):
+    """The value passed as argument `arg_index` at call `site` was read on every path *before* any call
+    to `call_suffix` in the same function. Value expressions carry no memory version, so rules that
+    depend on 'the old value' check the position of the defining reads here. None = cannot tell."""
+    fn = site.fn
+    a = cx.prog.A(fn)
+    g = cx.pg(fn)
+    from .an import strip_generics
+    op = site.data["term"]["args"][arg_index]
+    pl = op.get("copy") or op.get("move")
+    if pl is None or pl["p"]:
+        return None
+
+    def is_call(bi):
+        t = fn.body.blocks[bi]["term"]
+        return t["k"] == "call" and "const" in t["func"] and "fn" in t["func"]["const"] and strip_generics(t["func"]["const"]["fn"]["path"]).endswith(call_suffix)
+    reads = defining_reads(a, pl["l"])
+    if not reads:
+        return None
+    return all(not g.dominated_by_block(r, is_call) for r in reads)
